@@ -616,7 +616,10 @@ var tamperFields = []string{"payload", "clock.time", "clock.id", "next", "refs",
 	// covered by the signature, but it is part of the block
 	"key-recoded",
 	// the genuine entry in another encoding (one more map key, which decoders ignore): another block, another address
-	"reencoded"}
+	"reencoded",
+	// a block that is not an entry at all in the places the decoder dereferences: the genuine entry without its clock,
+	// and with an identity that carries no signatures (reachable through a link only: Sync refuses such heads)
+	"linked-no-clock", "linked-no-signatures"}
 
 func flip(b []byte) []byte {
 	o := append([]byte{}, b...)
@@ -750,6 +753,37 @@ func runTamper(in *AuthInput, res *Result) {
 					if field == "hash-alias" && pos == "head-rehashed" {
 						return // identical to the genuine entry
 					}
+					if field == "linked-no-clock" || field == "linked-no-signatures" {
+						if pos != "ancestor" {
+							return
+						}
+						raw, ok := a.w1.P.RawBlock(e2.GetHash())
+						if !ok {
+							res.Inconclusive = append(res.Inconclusive, bid+": no block of the genuine entry")
+							return
+						}
+						var fields map[string]interface{}
+						if err := cbornode.DecodeInto(raw, &fields); err != nil {
+							res.Inconclusive = append(res.Inconclusive, bid+": decode: "+err.Error())
+							return
+						}
+						if field == "linked-no-clock" {
+							delete(fields, "clock")
+						} else if id, ok := fields["identity"].(map[string]interface{}); ok {
+							delete(id, "signatures")
+						}
+						nd, err := cbornode.WrapObject(fields, mh.SHA2_256, -1)
+						if err != nil {
+							res.Inconclusive = append(res.Inconclusive, bid+": encode: "+err.Error())
+							return
+						}
+						for _, n := range []*sim.Node{a.x, a.w1, a.w2} {
+							n.P.PutBlock(nd.Cid(), nd.RawData())
+						}
+						m = e2.Copy().(*entry.Entry)
+						m.Hash = nd.Cid()
+						mark("%s: a head of an authorised writer links to block %s, which is the entry %s without %s", bid, nd.Cid(), e2.GetHash(), strings.TrimPrefix(field, "linked-no-"))
+					}
 					if field == "reencoded" {
 						if pos == "head-rehashed" {
 							return
@@ -776,7 +810,7 @@ func runTamper(in *AuthInput, res *Result) {
 						m = e2.Copy().(*entry.Entry)
 						m.Hash = nd.Cid()
 					}
-					if pos != "head" && field != "hash-alias" && field != "reencoded" {
+					if pos != "head" && field != "hash-alias" && field != "reencoded" && !strings.HasPrefix(field, "linked-no-") {
 						if err := rehash(ctx, a.x, m); err != nil {
 							// cannot even be encoded: nothing to deliver
 							res.Stats["unencodable"]++
